@@ -291,6 +291,36 @@ class CatchAllPart(Part):
         return res
 
 
+class SaltMenuPart(Part):
+    name = "every_first_character_of_the_netconan_salt"
+    desc = "netconan salts starting with every printable ASCII character, blank, non-ASCII letters, and the empty salt: the replacement of one secret per class keeps its format"
+
+    def __init__(self, tier, seed):
+        self.tier, self.seed = tier, seed
+
+    def cases(self):
+        firsts = [chr(c) for c in range(32, 127)] + ["é", "中", "\t", "ß"]
+        return [{"salts": [f + "lab-2024" for f in firsts[i::8]] + ([""] if i == 0 else [])} for i in range(8)]
+
+    def run(self, case):
+        res = Res()
+        secs = [refs.j9_encode("hunter2", "Q", "abc"), refs.j9_encode("pw", "-"), "$9$abc!defghij",
+                refs.type7_encode("Zq", 9), "$1$abcd$" + secdom._crypt_tail(22, 4), "c0ffee77AB", "4072", "Xk3#vT9q"]
+        for ti, tmpl in enumerate(('set system tacplus-server 9.9.9.9 secret "{S}";', "password {S}")):
+            f = {"id": "saltmenu.f%d" % ti, "template": tmpl}
+            lines, meta = [], []
+            for sec in secs:
+                marked = secdom.fill(tmpl, ["\x00"]).split()
+                idx = [i for i, t in enumerate(marked) if "\x00" in t][0]
+                pre, post = marked[idx].split("\x00")
+                lines.append(secdom.fill(tmpl, [sec]))
+                meta.append((sec, pre, post, idx))
+            for salt in ([case["salt"]] if "salt" in case else case["salts"]):
+                judge(res, f, lines, meta, salt)
+        res.samples.append({"salts": [repr(s) for s in case["salts"][:4]], "secrets": len(secs)})
+        return res
+
+
 class EnclosingPart(Part):
     name = "enclosing_text"
     desc = "head x tail enclosing combinations around one secret per class, every form"
@@ -428,4 +458,4 @@ class DoubleMatch(Part):
 
 
 def parts(tier, seed):
-    return [FormatPart(tier, seed), EnclosingPart(tier, seed), DoubleMatch(tier, seed), CatchAllPart(tier, seed)]
+    return [FormatPart(tier, seed), EnclosingPart(tier, seed), DoubleMatch(tier, seed), CatchAllPart(tier, seed), SaltMenuPart(tier, seed)]
